@@ -108,32 +108,43 @@ def scanNext : P (Option (Nat × Token)) := do
   set { s with prevPos := s.scan.preback, scan := sc, steps := s.steps + 1 }
   liftS r
 
-def commentLoop : Nat → Nat → Option (Nat × Token) → P (Option (Nat × Token))
-  | 0, _, _ => throw .fuel
-  | fuel+1, line, posTok =>
+/-- scanner.rs `line_of` in the current scanner state (pure: no failure possible) -/
+def trueLine (pos : Nat) : P Nat := do return lineOfTable (← get).scan.lines pos
+
+/-- the comment loop of parser.rs `next`: `line` = line on which the previous comment ended,
+    `trailing` = line on which the token we are leaving (and the comments trailing it) ended -/
+def commentLoop : Nat → Nat → Option Nat → Option (Nat × Token) → P (Option (Nat × Token))
+  | 0, _, _, _ => throw .fuel
+  | fuel+1, line, trailing, posTok =>
     match posTok with
     | some (pos, .comment text) => do
-      if (← lineOf pos) > line + 1 then modify fun s => { s with leadComments := #[] }
+      let startLine ← trueLine pos
+      if startLine > line + 1 then modify fun s => { s with leadComments := #[] }
       let ended ← scanPosition
-      let line ← lineOf ended
+      let line ← trueLine ended
       let comment : Comment := { pos, text := String.ofList text }
-      modify fun s => { s with comments := s.comments.push comment, leadComments := s.leadComments.push comment }
+      modify fun s => { s with comments := s.comments.push comment }
+      let trailing' ← if trailing = some startLine then pure (some line)
+        else do
+          modify fun s => { s with leadComments := s.leadComments.push comment }
+          pure none
       let posTok ← scanNext
-      commentLoop fuel line posTok
+      commentLoop fuel line trailing' posTok
     | _ => pure posTok
 
-/-- parser.rs:163-196 -/
+/-- parser.rs `next` -/
 def next : P Unit := do
+  let trailing ← if (← get).started then do pure (some (← trueLine (← scanPosition))) else pure none
   modify fun s => { s with started := true }
   let posTok ← scanNext
   let fuel := (← get).scan.src.size + 2
-  let posTok ← commentLoop fuel 0 posTok
+  let posTok ← commentLoop fuel 0 trailing posTok
   let s ← get
   if let some comment := s.leadComments.back? then
     let commentEndPos := comment.pos + comment.text.length
-    let commentEndLine ← lineOf commentEndPos
+    let commentEndLine ← trueLine commentEndPos
     if let some (pos, _) := posTok then
-      let tokenStartLine ← lineOf pos
+      let tokenStartLine ← trueLine pos
       if tokenStartLine > commentEndLine + 1 then modify fun s => { s with leadComments := #[] }
   setCurrent posTok
 
@@ -194,14 +205,14 @@ def drainComments : P (List Comment) := do
 /-- parser.rs:202-232 -/
 def lineEndComment : P (Option Comment) := do
   let pos ← currentPos
-  let line0 ← lineOf pos
+  let line0 ← trueLine pos
   let start ← preback
   if !(← currentIs Operator.SemiColon) then return none
   match ← scanNext with
   | none => return none
   | some (pos, .comment text) =>
     modify fun s => { s with leadComments := #[] }
-    let line1 ← lineOf pos
+    let line1 ← trueLine pos
     if line0 = line1 then
       let comment : Comment := { pos, text := String.ofList text }
       modify fun s => { s with comments := s.comments.push comment }
